@@ -663,7 +663,7 @@ pub fn compound_builder_p<'a>(ms: &'a [Member], probe: bool) -> CompoundBuilder<
 
 /// Write `w` into a buffer of `cap` bytes pre-filled by `fill(i)`; returns (result, buffer).
 pub fn write_filled(w: &dyn RtcpPacketWriter, cap: usize, fill: impl Fn(usize) -> u8) -> (Result<usize, WErr>, Vec<u8>) {
-    let mut buf: Vec<u8> = (0..cap).map(&fill).collect();
+    let mut buf = crate::engine::place::OutBuf::new(cap, &fill);
     let r = DynW(w).write_into(&mut buf).map_err(werr);
-    (r, buf)
+    (r, buf.into_vec())
 }
